@@ -336,6 +336,15 @@ func (r *Runner) RunCases(cases []Case) {
 				f.Close()
 			}
 		}
+		if sd := os.Getenv("VERIF_SPOTDUMP"); sd != "" && (c.Op == "glob" || c.Op == "clean" || c.Op == "unpack") && idx%37 == 0 {
+			// kernel spot-check (tools/spotcheck.py): what the COMPILED model answered, to be re-derived
+			// from the same definitions by the Lean kernel
+			if f, err := os.OpenFile(sd, os.O_APPEND|os.O_CREATE|os.O_WRONLY, 0o644); err == nil {
+				b, _ := json.Marshal(map[string]any{"op": c.Op, "args": c.Args, "model": outs[i]})
+				f.Write(append(b, '\n'))
+				f.Close()
+			}
+		}
 		if c.Trivial {
 			r.St.Trivial++
 		} else {
